@@ -93,7 +93,9 @@ def view (st : State) : List String → Option String
   | _ => none
 
 def step (st : State) (line : String) : State × String :=
-  let w := words line
+  -- a trailing `@dtype` token only says which integer *object* carries the index (NumPy scalar / array dtype): the
+  -- model is about the number
+  let w := (words line).filter (fun t => !t.startsWith "@")
   match view st w with
   | some out => (st, out)
   | none =>
